@@ -2,7 +2,7 @@
     the vertical discretisation of the specification (Model/PrimEqSpec.v) and the column
     algebra of the implementation model (Model/PrimEq.v), on one column.
     ExtrOcamlBasic only: Z, positive, Q, nat stay inductive. *)
-From Dino Require Import Base.Ops Base.Sums Model.Sigma Model.Implicit Model.PrimEq Model.PrimEqSpec Extract.Common.
+From Dino Require Import Base.Ops Base.Sums Base.Ord Model.Sigma Model.Implicit Model.PrimEq Model.PrimEqSpec Extract.Common.
 Require Extraction.
 Require Import ExtrOcamlBasic.
 
@@ -43,6 +43,8 @@ Definition run_C05 (cmd : Z) (ints : list Z) (arrs : list (list Q)) : option (li
                  ++ qtab K (kinetic x))
   (* get_geopotential for one modal coefficient: phis + G . (T' + cst * Tref) *)
   | 2%Z => Some (qtab K (spec_phi c (scalar arrs 9 4) (fun j => n_temp x j + scalar arrs 9 5 * cTref c j)))
+  (* the specification's upwind operator: boundary velocities in arr 4, layer values in arr 8 *)
+  | 3%Z => Some (qtab K (spec_vadv_upwind c (arrf arrs 4) T))
   | _ => None
   end.
 
